@@ -101,7 +101,23 @@ Proof.
 Qed.
 
 (** ---- what the entries the monitor reacts to did to the ghost ---- *)
-Definition post (e : sx) (x : xst) (gx : gsys) (x' : xst) (gx' : gsys) : Prop :=
+(** entries 1..4 are ONE environment event each: PushBack / PopFront / Put / finalizer *)
+Definition ev_of (bs : Z) (e : sx) : event :=
+  if (tag e =? 1)%Z then EPushBack (if Z.eqb (sx_Z (sx_nth e 1)) 0 then Some (sx_Z (sx_nth e 2), bs) else None)
+  else if (tag e =? 2)%Z then EPopFront
+  else if (tag e =? 3)%Z then EPutStart (sx_nat (sx_nth e 1)) (sx_Z (sx_nth e 2))
+  else EFinalize (sx_nat (sx_nth e 1))
+                 (if Z.eqb (sx_Z (sx_nth e 2)) 3 then None
+                  else Some (if Z.eqb (sx_Z (sx_nth e 2)) 0 then sx_Z (sx_nth e 3) else 0%Z))
+                 (if Z.eqb (sx_Z (sx_nth e 2)) 0 then sx_N (sx_nth e 6) else 0%N).
+
+Definition is14 (e : sx) : Prop := tag e = 1%Z \/ tag e = 2%Z \/ tag e = 3%Z \/ tag e = 4%Z.
+
+(** thread steps, clock, cancellation: events that touch neither the list's blocks nor the uploads *)
+Definition quiet (ev : event) : Prop :=
+  match ev with EStep _ _ | ETick _ | ECancel => True | _ => False end.
+
+Definition post (cfg : config) (bs : Z) (e : sx) (x : xst) (gx : gsys) (x' : xst) (gx' : gsys) : Prop :=
   (tag e = 8%Z -> sx_bool (sx_nth e 1) = false -> g_syncing (gs_g gx') = g_acks (gs_g gx')) /\
   (tag e = 8%Z -> sx_bool (sx_nth e 1) = true -> closedForWriting (s_pbl (x_sys x')) = true) /\
   (tag e = 9%Z -> g_synced (gs_g gx') = g_syncing (gs_g gx)) /\
@@ -111,53 +127,72 @@ Definition post (e : sx) (x : xst) (gx : gsys) (x' : xst) (gx' : gsys) : Prop :=
                x_state x' = gw_state w) /\
   (tag e = 13%Z -> sx_bool (sx_nth e 2) = false -> x_state x' = x_state x /\ gs_writes gx' = gs_writes gx) /\
   (tag e = 18%Z -> s_p (x_sys x') = PExit) /\
-  (tag e <> 13%Z -> x_state x' = x_state x).
+  (tag e <> 13%Z -> x_state x' = x_state x) /\
+  (is14 e -> step cfg (x_sys x) (ev_of bs e) = Some (Ok (x_sys x')) /\
+             gx' = gstep (x_sys x) (ev_of bs e) (x_sys x') gx).
 
 Definition allowed (e : sx) (s : sys) (ev : event) : Prop :=
-  (tag e = 4%Z \/ notfin ev) /\ (tag e = 13%Z \/ nowr s ev).
+  (tag e = 4%Z \/ notfin ev) /\ (tag e = 13%Z \/ nowr s ev) /\ (is14 e \/ quiet ev).
 
-Definition sound (cfg : config) (e : sx) (x : xst) (gx : gsys) (x' : xst) : Prop :=
-  exists gx', gpath cfg (allowed e) (x_sys x) gx (x_sys x') gx' /\ post e x gx x' gx'.
+Definition sound (cfg : config) (bs : Z) (e : sx) (x : xst) (gx : gsys) (x' : xst) : Prop :=
+  exists gx', gpath cfg (allowed e) (x_sys x) gx (x_sys x') gx' /\ post cfg bs e x gx x' gx'.
 
-Lemma post_other e x gx x' gx' :
+Ltac fin_post :=
+  unfold post, is14; repeat split; intros; try congruence;
+  try (match goal with H : _ \/ _ |- _ => destruct H as [H|[H|[H|H]]]; congruence end).
+
+Lemma post_other cfg bs e x gx x' gx' :
   tag e <> 8%Z -> tag e <> 9%Z -> tag e <> 6%Z -> tag e <> 13%Z -> tag e <> 18%Z ->
-  x_state x' = x_state x -> post e x gx x' gx'.
-Proof. intros. unfold post. repeat split; intros; try congruence. Qed.
+  tag e <> 1%Z -> tag e <> 2%Z -> tag e <> 3%Z -> tag e <> 4%Z ->
+  x_state x' = x_state x -> post cfg bs e x gx x' gx'.
+Proof. intros. fin_post. Qed.
 
-Lemma post6 e x gx x' gx' : tag e = 6%Z -> x_state x' = x_state x ->
+Lemma post_single cfg bs e x gx x' : is14 e -> x_state x' = x_state x ->
+  step cfg (x_sys x) (ev_of bs e) = Some (Ok (x_sys x')) ->
+  post cfg bs e x gx x' (gstep (x_sys x) (ev_of bs e) (x_sys x') gx).
+Proof.
+  intros E S H. unfold post. repeat split; intros; try congruence;
+  try (destruct E as [E|[E|[E|E]]]; congruence).
+Qed.
+
+Lemma post6 cfg bs e x gx x' gx' : tag e = 6%Z -> x_state x' = x_state x ->
   (exists w, get_pend gx' (tid_of (sx_Z (sx_nth e 1))) = Some w /\ gw_cohort w = g_synced (gs_g gx')) ->
-  post e x gx x' gx'.
-Proof. intros E S H. unfold post. repeat split; intros; try congruence; try exact H. Qed.
+  post cfg bs e x gx x' gx'.
+Proof. intros E S H. fin_post; try exact H. Qed.
 
-Lemma post8 e x gx x' gx' : tag e = 8%Z -> x_state x' = x_state x ->
+Lemma post8 cfg bs e x gx x' gx' : tag e = 8%Z -> x_state x' = x_state x ->
   (sx_bool (sx_nth e 1) = false -> g_syncing (gs_g gx') = g_acks (gs_g gx')) ->
   (sx_bool (sx_nth e 1) = true -> closedForWriting (s_pbl (x_sys x')) = true) ->
-  post e x gx x' gx'.
-Proof. intros E S H1 H2. unfold post. repeat split; intros; try congruence; auto. Qed.
+  post cfg bs e x gx x' gx'.
+Proof. intros E S H1 H2. fin_post; auto. Qed.
 
-Lemma post9 e x gx x' gx' : tag e = 9%Z -> x_state x' = x_state x ->
-  g_synced (gs_g gx') = g_syncing (gs_g gx) -> post e x gx x' gx'.
-Proof. intros E S H. unfold post. repeat split; intros; try congruence. Qed.
+Lemma post9 cfg bs e x gx x' gx' : tag e = 9%Z -> x_state x' = x_state x ->
+  g_synced (gs_g gx') = g_syncing (gs_g gx) -> post cfg bs e x gx x' gx'.
+Proof. intros E S H. fin_post. Qed.
 
-Lemma post13 e x gx x' gx' : tag e = 13%Z ->
+Lemma post13 cfg bs e x gx x' gx' : tag e = 13%Z ->
   (sx_bool (sx_nth e 2) = true ->
      exists w, get_pend gx (tid_of (sx_Z (sx_nth e 1))) = Some w /\ gs_writes gx' = w :: gs_writes gx /\
                x_state x' = gw_state w) ->
   (sx_bool (sx_nth e 2) = false -> x_state x' = x_state x /\ gs_writes gx' = gs_writes gx) ->
-  post e x gx x' gx'.
+  post cfg bs e x gx x' gx'.
 Proof.
-  intros E H1 H2. unfold post. repeat split; intros; try congruence; auto;
+  intros E H1 H2. fin_post; auto;
   match goal with B : sx_bool _ = false |- _ => destruct (H2 B); assumption end.
 Qed.
 
-Lemma post18 e x gx x' gx' : tag e = 18%Z -> x_state x' = x_state x -> s_p (x_sys x') = PExit -> post e x gx x' gx'.
-Proof. intros E S H. unfold post. repeat split; intros; try congruence. Qed.
+Lemma post18 cfg bs e x gx x' gx' : tag e = 18%Z -> x_state x' = x_state x -> s_p (x_sys x') = PExit ->
+  post cfg bs e x gx x' gx'.
+Proof. intros E S H. fin_post. Qed.
 
 Lemma path_steps_allowed cfg e s gx s' gx' : gpath cfg qstep s gx s' gx' -> gpath cfg (allowed e) s gx s' gx'.
-Proof. apply gpath_weaken. intros s0 ev [H1 H2]. split; right; [apply isstep_notfin; exact H1|exact H2]. Qed.
+Proof.
+  apply gpath_weaken. intros s0 ev [H1 H2]. split; [right; apply isstep_notfin; exact H1|].
+  split; [right; exact H2|right]. destruct H1 as [t [a ->]]. exact I.
+Qed.
 
 Lemma allowed_step e s t a : nowr s (EStep t a) -> allowed e s (EStep t a).
-Proof. intros H. split; right; [intros k b sd Hc; discriminate|exact H]. Qed.
+Proof. intros H. split; [right; intros k b sd Hc; discriminate|]. split; [right; exact H|right; exact I]. Qed.
 
 Lemma allowed_fail e s t a : a_ok a = false -> allowed e s (EStep t a).
 Proof. intros H. apply allowed_step, nowr_fail, H. Qed.
@@ -167,30 +202,45 @@ Ltac open_tag H E := unfold replay_entry in H; rewrite E in H; cbv beta iota zet
 Ltac ifg := match goal with |- (if ?c then _ else _) = _ -> _ => destruct c eqn:?; [|discriminate] end.
 Ltac ifg' := match goal with |- (if ?c then _ else _) = _ -> _ => destruct c eqn:?; [discriminate|] end.
 
-(** an accepted entry without post-obligation that is one environment event *)
-Lemma sound_env cfg e x gx x' ev :
+(** an accepted entry without post-obligation that is a clock tick or the cancellation *)
+Lemma sound_env cfg bs e x gx x' ev :
   tag e <> 8%Z -> tag e <> 9%Z -> tag e <> 6%Z -> tag e <> 13%Z -> tag e <> 18%Z ->
-  (tag e = 4%Z \/ notfin ev) -> (forall t a, ev <> EStep t a) -> env cfg x ev = Some x' -> sound cfg e x gx x'.
+  tag e <> 1%Z -> tag e <> 2%Z -> tag e <> 3%Z -> tag e <> 4%Z ->
+  notfin ev -> (forall t a, ev <> EStep t a) -> quiet ev -> env cfg x ev = Some x' -> sound cfg bs e x gx x'.
 Proof.
-  intros N8 N9 N6 N13 N18 Ha Hne H. destruct (env_step _ _ _ _ H) as [Hs E].
-  eexists. split; [apply gpath_one; [split; [exact Ha|right; apply nowr_env; exact Hne]|exact Hs]|].
+  intros N8 N9 N6 N13 N18 N1 N2 N3 N4 Ha Hne Hq H. destruct (env_step _ _ _ _ H) as [Hs E].
+  eexists. split; [apply gpath_one; [split; [right; exact Ha|split; [right; apply nowr_env; exact Hne|right; exact Hq]]|exact Hs]|].
   apply post_other; auto.
 Qed.
 
-Lemma sound_tstep cfg e x gx x' t a :
-  tag e <> 8%Z -> tag e <> 9%Z -> tag e <> 6%Z -> tag e <> 13%Z -> tag e <> 18%Z ->
-  tstep cfg t a x = Some x' -> nowr (x_sys x) (EStep t a) -> sound cfg e x gx x'.
+(** entries 1..4: exactly the event [ev_of] *)
+Lemma sound_single cfg bs e x gx x' : is14 e -> env cfg x (ev_of bs e) = Some x' -> sound cfg bs e x gx x'.
 Proof.
-  intros N8 N9 N6 N13 N18 H Hn. destruct (tstep_step _ _ _ _ _ H) as [Hs E].
+  intros E H. destruct (env_step _ _ _ _ H) as [Hs S].
+  exists (gstep (x_sys x) (ev_of bs e) (x_sys x') gx). split; [|apply post_single; assumption].
+  apply gpath_one; [|exact Hs]. split; [|split; [right|left; exact E]].
+  - destruct E as [E|[E|[E|E]]]; [right|right|right|left; exact E]; unfold ev_of; rewrite E; cbn [Z.eqb Pos.eqb];
+      intros k b sd Hc; discriminate.
+  - apply nowr_env. intros t a Hc. destruct E as [E|[E|[E|E]]]; unfold ev_of in Hc; rewrite E in Hc; cbn [Z.eqb Pos.eqb] in Hc;
+      discriminate.
+Qed.
+
+Lemma sound_tstep cfg bs e x gx x' t a :
+  tag e <> 8%Z -> tag e <> 9%Z -> tag e <> 6%Z -> tag e <> 13%Z -> tag e <> 18%Z ->
+  tag e <> 1%Z -> tag e <> 2%Z -> tag e <> 3%Z -> tag e <> 4%Z ->
+  tstep cfg t a x = Some x' -> nowr (x_sys x) (EStep t a) -> sound cfg bs e x gx x'.
+Proof.
+  intros N8 N9 N6 N13 N18 N1 N2 N3 N4 H Hn. destruct (tstep_step _ _ _ _ _ H) as [Hs E].
   eexists. split; [apply gpath_one; [apply allowed_step; exact Hn|exact Hs]|].
   apply post_other; auto.
 Qed.
 
-Lemma sound_nil cfg e x gx x' :
+Lemma sound_nil cfg bs e x gx x' :
   tag e <> 8%Z -> tag e <> 9%Z -> tag e <> 6%Z -> tag e <> 13%Z -> tag e <> 18%Z ->
-  x_sys x' = x_sys x -> x_state x' = x_state x -> sound cfg e x gx x'.
+  tag e <> 1%Z -> tag e <> 2%Z -> tag e <> 3%Z -> tag e <> 4%Z ->
+  x_sys x' = x_sys x -> x_state x' = x_state x -> sound cfg bs e x gx x'.
 Proof.
-  intros N8 N9 N6 N13 N18 E1 E2. exists gx. split; [rewrite E1; constructor|]. apply post_other; auto.
+  intros N8 N9 N6 N13 N18 N1 N2 N3 N4 E1 E2. exists gx. split; [rewrite E1; constructor|]. apply post_other; auto.
 Qed.
 
 Ltac tagne E := let H := fresh in intro H; rewrite E in H; discriminate H.
@@ -198,48 +248,40 @@ Ltac tagne E := let H := fresh in intro H; rewrite E in H; discriminate H.
 Section Tags.
 Variables (cfg : config) (bs : Z).
 
-Lemma replay_tag1 x e x' gx : tag e = 1%Z -> replay_entry cfg bs x e = Some x' -> sound cfg e x gx x'.
+Lemma replay_tag1 x e x' gx : tag e = 1%Z -> replay_entry cfg bs x e = Some x' -> sound cfg bs e x gx x'.
 Proof.
   intros E H. open_tag H E. ifg. intros H.
-  eapply (sound_env cfg e x gx x'); [tagne E|tagne E|tagne E|tagne E|tagne E| | |exact H].
-  - right. intros k b sd Hc. discriminate.
-  - intros t a Hc. discriminate.
+  apply sound_single; [left; exact E|]. unfold ev_of. rewrite E. exact H.
 Qed.
 
-Lemma replay_tag2 x e x' gx : tag e = 2%Z -> replay_entry cfg bs x e = Some x' -> sound cfg e x gx x'.
+Lemma replay_tag2 x e x' gx : tag e = 2%Z -> replay_entry cfg bs x e = Some x' -> sound cfg bs e x gx x'.
 Proof.
   intros E H. open_tag H E. intros H.
-  eapply (sound_env cfg e x gx x'); [tagne E|tagne E|tagne E|tagne E|tagne E| | |exact H].
-  - right. intros k b sd Hc. discriminate.
-  - intros t a Hc. discriminate.
+  apply sound_single; [right; left; exact E|]. unfold ev_of. rewrite E. exact H.
 Qed.
 
-Lemma replay_tag3 x e x' gx : tag e = 3%Z -> replay_entry cfg bs x e = Some x' -> sound cfg e x gx x'.
+Lemma replay_tag3 x e x' gx : tag e = 3%Z -> replay_entry cfg bs x e = Some x' -> sound cfg bs e x gx x'.
 Proof.
   intros E H. open_tag H E. intros H.
-  eapply (sound_env cfg e x gx x'); [tagne E|tagne E|tagne E|tagne E|tagne E| | |exact H].
-  - right. intros k b sd Hc. discriminate.
-  - intros t a Hc. discriminate.
+  apply sound_single; [right; right; left; exact E|]. unfold ev_of. rewrite E. exact H.
 Qed.
 
-Lemma replay_tag4 x e x' gx : tag e = 4%Z -> replay_entry cfg bs x e = Some x' -> sound cfg e x gx x'.
+Lemma replay_tag4 x e x' gx : tag e = 4%Z -> replay_entry cfg bs x e = Some x' -> sound cfg bs e x gx x'.
 Proof.
   intros E H. open_tag H E.
   destruct (nth_error _ _) as [[[tok size]|]|]; try discriminate.
   destruct (put_finalize _ _ _ _ _) as [[p' fr]|]; [|discriminate].
   ifg. ifg. intros H.
-  eapply (sound_env cfg e x gx x'); [tagne E|tagne E|tagne E|tagne E|tagne E| | |exact H].
-  - left. exact E.
-  - intros t a Hc. discriminate.
+  apply sound_single; [right; right; right; exact E|]. unfold ev_of. rewrite E. exact H.
 Qed.
 
-Lemma replay_tag5 x e x' gx : tag e = 5%Z -> replay_entry cfg bs x e = Some x' -> sound cfg e x gx x'.
+Lemma replay_tag5 x e x' gx : tag e = 5%Z -> replay_entry cfg bs x e = Some x' -> sound cfg bs e x gx x'.
 Proof.
   intros E H. open_tag H E. destruct (tid_of _).
   - destruct (s_r (x_sys x)); try discriminate. ifg. intros H.
-    eapply (sound_tstep cfg e x gx x'); [tagne E|tagne E|tagne E|tagne E|tagne E|exact H|apply nowr_fail; reflexivity].
+    eapply (sound_tstep cfg bs e x gx x'); [tagne E|tagne E|tagne E|tagne E|tagne E|tagne E|tagne E|tagne E|tagne E|exact H|apply nowr_fail; reflexivity].
   - destruct (s_p (x_sys x)); try discriminate. ifg. intros H.
-    eapply (sound_tstep cfg e x gx x'); [tagne E|tagne E|tagne E|tagne E|tagne E|exact H|apply nowr_fail; reflexivity].
+    eapply (sound_tstep cfg bs e x gx x'); [tagne E|tagne E|tagne E|tagne E|tagne E|tagne E|tagne E|tagne E|tagne E|exact H|apply nowr_fail; reflexivity].
 Qed.
 
 (** the step that calls GetPersistentState records the snapshot with the cohort of the latest
@@ -255,7 +297,7 @@ Proof.
     cbn. split; [reflexivity|]. eexists. split; reflexivity.
 Qed.
 
-Lemma replay_tag6 x e x' gx : tag e = 6%Z -> replay_entry cfg bs x e = Some x' -> sound cfg e x gx x'.
+Lemma replay_tag6 x e x' gx : tag e = 6%Z -> replay_entry cfg bs x e = Some x' -> sound cfg bs e x gx x'.
 Proof.
   intros E H. open_tag H E.
   destruct (advance _ _ _ _ _ _) as [x1|] eqn:A; [|discriminate].
@@ -271,13 +313,13 @@ Proof.
   - apply post6; [exact E|congruence|]. exists w. split; [exact Hp|]. rewrite Hg. exact Hc.
 Qed.
 
-Lemma replay_tag7 x e x' gx : tag e = 7%Z -> replay_entry cfg bs x e = Some x' -> sound cfg e x gx x'.
+Lemma replay_tag7 x e x' gx : tag e = 7%Z -> replay_entry cfg bs x e = Some x' -> sound cfg bs e x gx x'.
 Proof.
   intros E H. open_tag H E. ifg. intros H.
-  eapply (sound_tstep cfg e x gx x'); [tagne E|tagne E|tagne E|tagne E|tagne E|exact H|apply nowr_fail; reflexivity].
+  eapply (sound_tstep cfg bs e x gx x'); [tagne E|tagne E|tagne E|tagne E|tagne E|tagne E|tagne E|tagne E|tagne E|exact H|apply nowr_fail; reflexivity].
 Qed.
 
-Lemma replay_tag8 x e x' gx : tag e = 8%Z -> replay_entry cfg bs x e = Some x' -> sound cfg e x gx x'.
+Lemma replay_tag8 x e x' gx : tag e = 8%Z -> replay_entry cfg bs x e = Some x' -> sound cfg bs e x gx x'.
 Proof.
   intros E H. open_tag H E. destruct (sx_bool (sx_nth e 1)) eqn:B.
   - destruct (x_final_due x && closedForWriting (s_pbl (x_sys x)))%bool eqn:C; [|discriminate].
@@ -294,7 +336,7 @@ Proof.
       intros _. cbn [gstep]. destruct (s_p (x_sys x1)); try discriminate. reflexivity.
 Qed.
 
-Lemma replay_tag9 x e x' gx : tag e = 9%Z -> replay_entry cfg bs x e = Some x' -> sound cfg e x gx x'.
+Lemma replay_tag9 x e x' gx : tag e = 9%Z -> replay_entry cfg bs x e = Some x' -> sound cfg bs e x gx x'.
 Proof.
   intros E H. open_tag H E. destruct (s_p (x_sys x)) as [| | | | | |keep final| | |] eqn:Ep; try discriminate.
   destruct (tstep _ _ _ x) as [x1|] eqn:T; [|discriminate]. intros H. inversion H; subst x'; clear H.
@@ -305,20 +347,20 @@ Proof.
     cbn [gstep]. rewrite Ep. destruct (negb keep && negb final); reflexivity.
 Qed.
 
-Lemma replay_tag10 x e x' gx : tag e = 10%Z -> replay_entry cfg bs x e = Some x' -> sound cfg e x gx x'.
+Lemma replay_tag10 x e x' gx : tag e = 10%Z -> replay_entry cfg bs x e = Some x' -> sound cfg bs e x gx x'.
 Proof.
   intros E H. open_tag H E. destruct (s_p (x_sys x)); try discriminate. ifg. intros H.
   inversion H; subst. apply sound_nil; try tagne E; reflexivity.
 Qed.
 
-Lemma replay_tag11 x e x' gx : tag e = 11%Z -> replay_entry cfg bs x e = Some x' -> sound cfg e x gx x'.
+Lemma replay_tag11 x e x' gx : tag e = 11%Z -> replay_entry cfg bs x e = Some x' -> sound cfg bs e x gx x'.
 Proof.
   intros E H. open_tag H E. destruct (s_p (x_sys x)) eqn:Ep; try discriminate. intros H.
-  eapply (sound_tstep cfg e x gx x'); [tagne E|tagne E|tagne E|tagne E|tagne E|exact H|].
+  eapply (sound_tstep cfg bs e x gx x'); [tagne E|tagne E|tagne E|tagne E|tagne E|tagne E|tagne E|tagne E|tagne E|exact H|].
   apply nowr_pc. intros st. unfold wpc_of. rewrite Ep. discriminate.
 Qed.
 
-Lemma replay_tag12 x e x' gx : tag e = 12%Z -> replay_entry cfg bs x e = Some x' -> sound cfg e x gx x'.
+Lemma replay_tag12 x e x' gx : tag e = 12%Z -> replay_entry cfg bs x e = Some x' -> sound cfg bs e x gx x'.
 Proof.
   intros E H. open_tag H E. destruct (thread_w _ _) as [[| |st| |]|]; try discriminate. ifg. intros H.
   inversion H; subst. apply sound_nil; try tagne E; reflexivity.
@@ -339,7 +381,7 @@ Proof.
 Qed.
 
 Lemma replay_tag13 x e x' gx : psome (x_sys x) gx ->
-  tag e = 13%Z -> replay_entry cfg bs x e = Some x' -> sound cfg e x gx x'.
+  tag e = 13%Z -> replay_entry cfg bs x e = Some x' -> sound cfg bs e x gx x'.
 Proof.
   intros PS E H. open_tag H E.
   destruct (thread_w _ _) as [[| |st| |]|] eqn:Ew; try discriminate.
@@ -347,14 +389,14 @@ Proof.
   destruct (tstep_step _ _ _ _ _ T) as [Hs E2]. cbn [x_sys x_state].
   rewrite thread_w_wpc in Ew. destruct (PS _ _ Ew) as [w [Hp Hst]].
   exists (gstep (x_sys x) (EStep (tid_of (sx_Z (sx_nth e 1))) (mkAns (sx_bool (sx_nth e 2)) 0)) (x_sys x1) gx).
-  split; [apply gpath_one; [split; [right; intros k b sd Hc; discriminate|left; exact E]|exact Hs]|].
+  split; [apply gpath_one; [split; [right; intros k b sd Hc; discriminate|split; [left; exact E|right; exact I]]|exact Hs]|].
   apply post13; [exact E| |].
   - intros B. rewrite B. exists w. split; [exact Hp|]. split; [|symmetry; exact Hst].
     eapply write_ok_step; eauto.
   - intros B. rewrite B. split; [exact E2|]. apply gstep_writes_same. apply nowr_fail. reflexivity.
 Qed.
 
-Lemma replay_tag14 x e x' gx : tag e = 14%Z -> replay_entry cfg bs x e = Some x' -> sound cfg e x gx x'.
+Lemma replay_tag14 x e x' gx : tag e = 14%Z -> replay_entry cfg bs x e = Some x' -> sound cfg bs e x gx x'.
 Proof.
   intros E H. open_tag H E. destruct (tid_of _).
   - destruct (s_r (x_sys x)) as [| |[| | | |d]]; try discriminate. ifg. intros H.
@@ -368,33 +410,35 @@ Proof.
     apply post_other; try tagne E. exact E1.
 Qed.
 
-Lemma replay_tag15 x e x' gx : tag e = 15%Z -> replay_entry cfg bs x e = Some x' -> sound cfg e x gx x'.
+Lemma replay_tag15 x e x' gx : tag e = 15%Z -> replay_entry cfg bs x e = Some x' -> sound cfg bs e x gx x'.
 Proof.
   intros E H. open_tag H E. destruct (tid_of _).
   - destruct (s_r (x_sys x)) as [| |[| | | |d]]; try discriminate. intros H.
-    eapply (sound_tstep cfg e x gx x'); [tagne E|tagne E|tagne E|tagne E|tagne E|exact H|apply nowr_fail; reflexivity].
+    eapply (sound_tstep cfg bs e x gx x'); [tagne E|tagne E|tagne E|tagne E|tagne E|tagne E|tagne E|tagne E|tagne E|exact H|apply nowr_fail; reflexivity].
   - destruct (s_p (x_sys x)) as [| | |d| | | |k f d|k [| | | |d]|]; try discriminate;
       ifg'; intros H;
-      (eapply (sound_tstep cfg e x gx x'); [tagne E|tagne E|tagne E|tagne E|tagne E|exact H|apply nowr_fail; reflexivity]).
+      (eapply (sound_tstep cfg bs e x gx x'); [tagne E|tagne E|tagne E|tagne E|tagne E|tagne E|tagne E|tagne E|tagne E|exact H|apply nowr_fail; reflexivity]).
 Qed.
 
-Lemma replay_tag16 x e x' gx : tag e = 16%Z -> replay_entry cfg bs x e = Some x' -> sound cfg e x gx x'.
+Lemma replay_tag16 x e x' gx : tag e = 16%Z -> replay_entry cfg bs x e = Some x' -> sound cfg bs e x gx x'.
 Proof.
   intros E H. open_tag H E. intros H.
-  eapply (sound_env cfg e x gx x'); [tagne E|tagne E|tagne E|tagne E|tagne E| | |exact H].
-  - right. intros k b sd Hc. discriminate.
+  eapply (sound_env cfg bs e x gx x'); [tagne E|tagne E|tagne E|tagne E|tagne E|tagne E|tagne E|tagne E|tagne E| | | |exact H].
+  - intros k b sd Hc. discriminate.
   - intros t a Hc. discriminate.
+  - exact I.
 Qed.
 
-Lemma replay_tag17 x e x' gx : tag e = 17%Z -> replay_entry cfg bs x e = Some x' -> sound cfg e x gx x'.
+Lemma replay_tag17 x e x' gx : tag e = 17%Z -> replay_entry cfg bs x e = Some x' -> sound cfg bs e x gx x'.
 Proof.
   intros E H. open_tag H E. intros H.
-  eapply (sound_env cfg e x gx x'); [tagne E|tagne E|tagne E|tagne E|tagne E| | |exact H].
-  - right. intros k b sd Hc. discriminate.
+  eapply (sound_env cfg bs e x gx x'); [tagne E|tagne E|tagne E|tagne E|tagne E|tagne E|tagne E|tagne E|tagne E| | | |exact H].
+  - intros k b sd Hc. discriminate.
   - intros t a Hc. discriminate.
+  - exact I.
 Qed.
 
-Lemma replay_tag18 x e x' gx : tag e = 18%Z -> replay_entry cfg bs x e = Some x' -> sound cfg e x gx x'.
+Lemma replay_tag18 x e x' gx : tag e = 18%Z -> replay_entry cfg bs x e = Some x' -> sound cfg bs e x gx x'.
 Proof.
   intros E H. open_tag H E. destruct (s_p (x_sys x)) eqn:Ep; try discriminate. intros H. inversion H; subst x'.
   exists gx. split; [constructor|]. apply post18; [exact E|reflexivity|exact Ep].
@@ -410,7 +454,7 @@ Proof.
   - exists gx. split; [constructor|reflexivity].
 Qed.
 
-Lemma replay_tag20 x e x' gx : tag e = 20%Z -> replay_entry cfg bs x e = Some x' -> sound cfg e x gx x'.
+Lemma replay_tag20 x e x' gx : tag e = 20%Z -> replay_entry cfg bs x e = Some x' -> sound cfg bs e x gx x'.
 Proof.
   intros E H. open_tag H E.
   set (x1 := match s_p (x_sys x) with
@@ -444,7 +488,7 @@ Qed.
 
 (** every accepted entry *)
 Lemma replay_entry_sound x e x' gx : psome (x_sys x) gx ->
-  replay_entry cfg bs x e = Some x' -> sound cfg e x gx x'.
+  replay_entry cfg bs x e = Some x' -> sound cfg bs e x gx x'.
 Proof.
   intros PS H.
   destruct (Z.eq_dec (tag e) 1); [eapply replay_tag1; eauto|].
